@@ -190,3 +190,65 @@ func VerifC07Par() {
 	verifnd.Reach("C07.par.done")
 	verifnd.Reach("C07.par." + scName)
 }
+
+// VerifC07Cycles: create/end cycles over many sessions with id reuse: four sessions are created, up to
+// three of them end in an arbitrary order, then three more are created (reusing released ids and issuing
+// new ones). After every step the registry invariant holds — in particular a session's id resolves to it
+// and to no other live session.
+func VerifC07Cycles() {
+	c := &c07World{w: newVWorld(0)}
+	c.gauge0 = verifnd.Gauge("session_count")
+	c.workers0 = verifnd.GoroutinesIn("StartDispatchFrames")
+	const n = 7
+	for i := 0; i < n; i++ {
+		c.conns = append(c.conns, c.w.newConn())
+		c.joined = append(c.joined, false)
+	}
+	create := func(i int, tag string) {
+		x := c.conns[i]
+		x.join("", 1)
+		verifnd.Assert(x.pid != 0, "C07.create_always_succeeds")
+		c.joined[i] = x.pid != 0
+		for k, sid := range c.seenSids {
+			if sid == x.sid {
+				verifnd.Assert(c.seenUUID[k] != x.uuid, "C07.reused_id_new_uuid")
+				verifnd.Reach("C07.cycles.id_reused")
+			}
+		}
+		for j := 0; j < n; j++ {
+			if j != i && c.joined[j] {
+				verifnd.Assert(c.conns[j].sid != x.sid, "C07.cycles.live_sessions_distinct_ids", tag)
+			}
+		}
+		c.seenSids = append(c.seenSids, x.sid)
+		c.seenUUID = append(c.seenUUID, x.uuid)
+		c.w.drainAll()
+		c.invariant(tag)
+	}
+	for i := 0; i < 4; i++ {
+		create(i, "create")
+	}
+	ends := verifnd.Choice(4)
+	for e := 0; e < ends; e++ {
+		// the k-th still joined connection ends
+		k := verifnd.Choice(4 - e)
+		for i := 0; i < 4; i++ {
+			if !c.joined[i] {
+				continue
+			}
+			if k == 0 {
+				c.conns[i].rh.HandleDisconnect(nil)
+				c.joined[i] = false
+				break
+			}
+			k--
+		}
+		c.w.drainAll()
+		c.invariant("end")
+	}
+	for i := 4; i < n; i++ {
+		create(i, "recreate")
+	}
+	verifnd.Observe("c07cycles", uint64(ends), uint64(len(c.seenSids)))
+	verifnd.Reach("C07.cycles.done")
+}
